@@ -1,10 +1,8 @@
 (* C03 — the check functions of the correspondence streams, instantiated with the regenerated
-   tables (gen/C03Tables_gen.v) and, for dsa.Verify, with the word-level modular exponentiation
-   of model/C23Fast.v (equal to Zpow_mod: proof/C23FastProofs.v). *)
-From Coq Require Import List ZArith NArith Bool Zpow_facts.
+   tables (gen/C03Tables_gen.v). *)
+From Coq Require Import List ZArith NArith Bool.
 From VerifGen Require Import C03Tables_gen.
-From VerifModel Require Import C23 C23Fast C03.
+From VerifModel Require Import C23 C03.
 Definition check_signcase := C03.check_signcase x509_details ocsp_details.
 Definition check_checkcase := C03.check_checkcase x509_details.
 Definition check_psscase := C03.check_psscase.
-Definition check_dsacase := C03.check_dsacase fast_powmod.
